@@ -1330,11 +1330,11 @@ _PR = O + 'rays/polarized_rays.py'
 _RT9 = {
     'C16': [
         M('rt9-pol-intensity-overwrite',
-          (_PR, 'self.i = self.i * np.sum(np.abs(E1)**2, axis=1)',
-           'self.i = np.sum(np.abs(E1)**2, axis=1)')),
+          (_PR, 'self.i = np.where(self.i == 0, 0.0, self.i * transmittance)',
+           'self.i = np.where(self.i == 0, 0.0, transmittance)')),
         M('rt9-unpol-intensity-from-launch',
-          (_PR, 'self.i = self.i * (np.sum(np.abs(E1_x)**2, axis=1) +',
-           'self.i = self._i0 * (np.sum(np.abs(E1_x)**2, axis=1) +')),
+          (_PR, 'self.i = np.where(self.i == 0, 0.0, self.i * transmittance)',
+           'self.i = np.where(self.i == 0, 0.0, self._i0 * transmittance)')),
     ],
     'C17': [
         M('rt9-unpol-not-halved',
@@ -1345,8 +1345,8 @@ _RT9 = {
                 "Ey=1.0,", "state_y = PolarizationState(is_polarized=True, "
                            "Ex=1.0, Ey=0.0,")),
         M('rt9-pol-branch-launch-intensity',
-          (_PR, 'self.i = self.i * np.sum(np.abs(E1)**2, axis=1)',
-           'self.i = self._i0 * np.sum(np.abs(E1)**2, axis=1)')),
+          (_PR, 'transmittance = np.sum(np.abs(E1)**2, axis=1)',
+           'transmittance = self._i0 * np.sum(np.abs(E1)**2, axis=1)')),
         M('rt9-simple-coating-no-update',
           (CT, '        rays.i *= self.transmittance\n        # polarized rays '
                'follow the change of direction (identity Jones matrix)\n'
@@ -1359,11 +1359,11 @@ _RT9 = {
            '        rays.i *= self.reflectance\n        rays.update()\n'
            '        rays.update()\n')),
         T('rt9-T-unpol-half-first',
-          (_PR, 'self.i = self.i * (np.sum(np.abs(E1_x)**2, axis=1) +\n'
-                '                               np.sum(np.abs(E1_y)**2, '
+          (_PR, 'transmittance = (np.sum(np.abs(E1_x)**2, axis=1) +\n'
+                '                             np.sum(np.abs(E1_y)**2, '
                 'axis=1)) / 2',
-           'self.i = 0.5 * self.i * (np.sum(np.abs(E1_x)**2, axis=1) +\n'
-           '                               np.sum(np.abs(E1_y)**2, '
+           'transmittance = 0.5 * (np.sum(np.abs(E1_x)**2, axis=1) +\n'
+           '                             np.sum(np.abs(E1_y)**2, '
            'axis=1))')),
     ],
 }
@@ -1472,4 +1472,77 @@ _RT14 = {
     ],
 }
 for _p, _l in _RT14.items():
+    VARIANTS.setdefault(_p, []).extend(_l)
+
+
+_RT15 = {
+    'C17': [
+        M('rt15-rotate-x-transposed',
+          (_PR, 'self._rotate_p([[1, 0, 0], [0, c, -s], [0, s, c]])',
+           'self._rotate_p([[1, 0, 0], [0, c, s], [0, -s, c]])')),
+        M('rt15-rotate-y-missing',
+          (_PR, '        self._rotate_p([[c, 0, s], [0, 1, 0], [-s, 0, c]])\n',
+           '        pass\n')),
+        M('rt15-rotate-right-multiply',
+          (_PR, 'self.p = np.matmul(np.asarray(matrix, dtype=float), self.p)',
+           'self.p = np.matmul(self.p, np.asarray(matrix, dtype=float))')),
+        M('rt15-generic-no-pol',
+          (OP, "        rays = self.surface_group.trace(rays)\n\n"
+               "        if isinstance(rays, PolarizedRays):\n"
+               "            rays.update_intensity(self.polarization_state)\n",
+           "        rays = self.surface_group.trace(rays)\n")),
+        M('rt15-dark-nan',
+          (_PR, 'self.i = np.where(self.i == 0, 0.0, self.i * transmittance)',
+           'self.i = self.i * transmittance')),
+    ],
+    'C15': [
+        M('rt15-no-update-without-compensators',
+          (TOL + 'core.py', '        self.optic.update()\n        if '
+                            'self.compensator.has_variables:',
+           '        if self.compensator.has_variables:')),
+    ],
+    'C07': [
+        M('rt15-aperture-per-surface',
+          (OP, "            if surface.aperture is not None and \\\n"
+               "                    id(surface.aperture) not in scaled:\n",
+           "            if surface.aperture is not None:\n")),
+    ],
+    'C13': [
+        M('rt15-conversion-dropped',
+          (PX, '        y = self._process_input(y)\n',
+           '        self._process_input(y)\n')),
+        M('rt15-numpy-scalars-rejected',
+          (O + 'rays/base.py',
+           'isinstance(data, (int, float, np.integer, np.floating))',
+           'isinstance(data, (int, float))')),
+    ],
+    'C01': [
+        M('rt15-append-default-dropped',
+          (SG, "        elif index is None:\n            # a ready-made surface "
+               "without an index is appended\n"
+               "            index = len(self.surfaces)\n", '')),
+        M('rt15-conic-pickup-unguarded',
+          (O + 'pickup.py', "return getattr(surface.geometry, 'k', 0)",
+           'return surface.geometry.k')),
+    ],
+}
+for _p, _l in _RT15.items():
+    VARIANTS.setdefault(_p, []).extend(_l)
+
+_RT16 = {
+    'C04': [
+        M('rt16-asphere-curvature-dropped',
+          (SS, '            curvature = np.float64(1 / radius + 2 * '
+               'self.geometry.c[0])\n',
+           '            curvature = np.float64(1 / radius)\n')),
+        M('rt16-asphere-curvature-single',
+          (SS, 'np.float64(1 / radius + 2 * self.geometry.c[0])',
+           'np.float64(1 / radius + self.geometry.c[0])')),
+        M('rt16-inverted-asphere-not-negated',
+          (SG, '            if isinstance(surf.geometry, EvenAsphere):\n'
+               '                surf.geometry.c = [-c for c in '
+               'surf.geometry.c]\n', '')),
+    ],
+}
+for _p, _l in _RT16.items():
     VARIANTS.setdefault(_p, []).extend(_l)
